@@ -236,6 +236,26 @@ func stubEqualFold(a, b string) bool {
 	return rt.StrEq(a, b)
 }
 
+// genExtEntryMemo: the members of the object are decided once, whichever decoding asks first
+type extMemoRec struct {
+	key     string
+	val     interface{}
+	present bool
+}
+
+var extMemo []extMemoRec
+
+func genExtEntryMemo(k string) (interface{}, bool) {
+	for _, r := range extMemo {
+		if rt.Same(r.key, k) {
+			return r.val, r.present
+		}
+	}
+	v, present := genExtEntry(k)
+	extMemo = append(extMemo, extMemoRec{k, v, present})
+	return v, present
+}
+
 var headerPtr *jwsProtectedHeader
 var jwtView *jwsProtectedHeader
 var algInMap, algInMapAsked bool
@@ -329,9 +349,8 @@ func stubJSONUnmarshal(data []byte, v any) error {
 			return nil
 		}
 		setupExtras()
-		if theExt == nil {
-			theExt = rt.LazyMap(append(append([]string{}, specKeys...), extKeys...), genExtEntry)
-		}
+		// every decoding yields a NEW map with the same members (the code under test deletes from the map it gets)
+		theExt = rt.LazyMap(append(append([]string{}, specKeys...), extKeys...), genExtEntryMemo)
 		*p = theExt
 		return nil
 	}
@@ -454,9 +473,29 @@ func contentOfJ(digest []byte) ([]byte, int) {
 	rt.Fail("primitive called with a digest that the hash leaf did not produce")
 	return nil, 0
 }
+// the primitives are functions of their arguments: the same question gets the same answer
+func priorVerdictJ(family string, key any, hash int, content, sig []byte, r, s *big.Int) (bool, bool) {
+	for _, x := range vrfLogJ {
+		if x.family == family && x.hash == hash && rt.Same(x.key, key) && rt.Same(x.content, content) && rt.Same(x.sig, sig) && sameBig(x.r, r) && sameBig(x.s, s) {
+			return x.valid, true
+		}
+	}
+	return false, false
+}
+
+func sameBig(a, b *big.Int) bool {
+	if a == nil || b == nil {
+		return a == b
+	}
+	return rt.BigEq(a, b)
+}
+
 func stubVerifyPSSJWS(pub *rsa.PublicKey, h crypto.Hash, digest []byte, sig []byte, opts *rsa.PSSOptions) error {
 	c, dh := contentOfJ(digest)
-	v := rt.Bool(rt.Name("rsa.pss.valid"))
+	v, asked := priorVerdictJ("PS", pub, int(h), c, sig, nil, nil)
+	if !asked {
+		v = rt.Bool(rt.Name("rsa.pss.valid"))
+	}
 	rt.Assert(int(h) == dh, "C01.jws.pss.hash.consistent")
 	vrfLogJ = append(vrfLogJ, vrfRecJ{family: "PS", key: pub, hash: int(h), content: c, sig: sig, valid: v})
 	if v {
@@ -466,7 +505,10 @@ func stubVerifyPSSJWS(pub *rsa.PublicKey, h crypto.Hash, digest []byte, sig []by
 }
 func stubVerifyPKCS1(pub *rsa.PublicKey, h crypto.Hash, digest []byte, sig []byte) error {
 	c, _ := contentOfJ(digest)
-	v := rt.Bool(rt.Name("rsa.pkcs1.valid"))
+	v, asked := priorVerdictJ("RS", pub, int(h), c, sig, nil, nil)
+	if !asked {
+		v = rt.Bool(rt.Name("rsa.pkcs1.valid"))
+	}
 	vrfLogJ = append(vrfLogJ, vrfRecJ{family: "RS", key: pub, hash: int(h), content: c, sig: sig, valid: v})
 	if v {
 		return nil
@@ -475,12 +517,18 @@ func stubVerifyPKCS1(pub *rsa.PublicKey, h crypto.Hash, digest []byte, sig []byt
 }
 func stubECDSAVerifyJWS(pub *ecdsa.PublicKey, digest []byte, r, s *big.Int) bool {
 	c, dh := contentOfJ(digest)
-	v := rt.Bool(rt.Name("ecdsa.valid"))
+	v, asked := priorVerdictJ("ES", pub, dh, c, nil, r, s)
+	if !asked {
+		v = rt.Bool(rt.Name("ecdsa.valid"))
+	}
 	vrfLogJ = append(vrfLogJ, vrfRecJ{family: "ES", key: pub, hash: dh, content: c, r: r, s: s, valid: v})
 	return v
 }
 func stubEd25519Verify(pub ed25519.PublicKey, msg, sig []byte) bool {
-	v := rt.Bool(rt.Name("ed25519.valid"))
+	v, asked := priorVerdictJ("Ed", pub, 0, msg, sig, nil, nil)
+	if !asked {
+		v = rt.Bool(rt.Name("ed25519.valid"))
+	}
 	vrfLogJ = append(vrfLogJ, vrfRecJ{family: "Ed", key: pub, content: msg, sig: sig, valid: v})
 	return v
 }
@@ -492,10 +540,14 @@ func stubToLower(s string) string         { return s }
 // jwt's registered-claims validation (exp / nbf / iat against the wall clock): the payload is an arbitrary JSON object,
 // so if the library were asked it could say anything. The repo configures the parser not to ask.
 var claimsValidCalls int
+var claimsInvalid bool
 
 func stubClaimsValid(m jwt.MapClaims) error {
 	claimsValidCalls++
-	if rt.Choose(rt.Name("claims.valid"), 2) == 1 {
+	if claimsValidCalls == 1 {
+		claimsInvalid = rt.Choose("claims.valid", 2) == 1
+	}
+	if claimsInvalid {
 		return rt.NewEnvError("claims")
 	}
 	return nil
